@@ -156,9 +156,70 @@ func runC06(c *Ctx) {
 	E, S := packager.Type.InitConnection.Type, packager.Type.InitConnection.OAuthRequest
 	users := map[string]string{"alice": "pw-alice", "bob": "pw-bob"}
 	world := fmt.Sprintf("world %d %d %s:%s,%s:%s", E, S, hx([]byte("alice")), hx([]byte(pwHash("pw-alice"))), hx([]byte("bob")), hx([]byte(pwHash("pw-bob")))) + " " + hx([]byte("svc-pw"))
+	// the battery: every variant of the structured first-message kinds is sent once at the start of a run
+	forcedKind, forcedIdx, exhausted := -1, -1, false
+	pick := func(xs []string) string {
+		if forcedIdx >= 0 {
+			if forcedIdx >= len(xs) {
+				exhausted = true
+				return xs[0]
+			}
+			return xs[forcedIdx]
+		}
+		return gen.Pick(r, xs)
+	}
 	firstMessages := func() (string, string) { // (label, text)
 		u := gen.Pick(r, []string{"alice", "bob"})
-		switch r.Intn(16) {
+		kind := r.Intn(26)
+		if forcedKind >= 0 {
+			kind = forcedKind
+		}
+		switch kind {
+		case 16, 17, 18, 19: // the digest field in every length and spelling around the right one
+			d := pwHash(users[u])
+			pw := pick([]string{strings.ToUpper(d), d + "00", d[:63], " " + d, d + " ", d[:32], strings.Repeat("ab", 33), strings.Repeat("0", 65),
+				strings.Repeat("f", 128), strings.Repeat("a1", 500), strings.Repeat("z", 64), "", strings.Repeat("é", 32), d[1:] + d[:1], strings.Repeat(d, 40)})
+			return "pwshape", loginJSON(u, pw, E, S, "")
+		case 20, 21: // the user name in odd spellings (JSON escapes decode to the same name)
+			un := pick([]string{"", u + " ", " " + u, u + "\x00", strings.Repeat("u", 5000), "älice", u + "/../bob"})
+			if forcedKind < 0 && r.Chance(1, 3) {
+				esc := fmt.Sprintf("\\u%04x%s", u[0], u[1:])
+				return "escuser", fmt.Sprintf(`{"Head":{"Event":%d,"User":"%s"},"Body":{"SubEvent":%d,"Info":{"User":"%s","Password":%q}}}`, E, esc, S, esc, pwHash(users[u]))
+			}
+			return "usershape", loginJSON(un, pwHash(users[u]), E, S, "")
+		case 22, 23: // ill-typed members at every level
+			d := pwHash(users[u])
+			return "illtyped", pick([]string{
+				fmt.Sprintf(`{"Head":{"Event":%d,"User":5},"Body":{"SubEvent":%d,"Info":{"User":%q,"Password":%q}}}`, E, S, u, d),
+				fmt.Sprintf(`{"Head":{"Event":"%d","User":%q},"Body":{"SubEvent":%d,"Info":{"User":%q,"Password":%q}}}`, E, u, S, u, d),
+				fmt.Sprintf(`{"Head":{"Event":%d,"User":%q},"Body":{"SubEvent":%d,"Info":[%q,%q]}}`, E, u, S, u, d),
+				fmt.Sprintf(`{"Head":{"Event":%d,"User":%q},"Body":{"SubEvent":%d,"Info":null}}`, E, u, S),
+				fmt.Sprintf(`{"Head":{"Event":%d,"User":%q},"Body":{"SubEvent":%d,"Info":"x"}}`, E, u, S),
+				fmt.Sprintf(`{"Head":{"Event":%d,"User":%q},"Body":[1,2]}`, E, u),
+				fmt.Sprintf(`{"Head":[],"Body":{"SubEvent":%d,"Info":{"User":%q,"Password":%q}}}`, S, u, d),
+				fmt.Sprintf(`{"Head":{"Event":%d,"User":%q},"Body":{"SubEvent":%d,"Info":{"User":%q,"Password":[%q]}}}`, E, u, S, u, d),
+				fmt.Sprintf(`{"Head":{"Event":%d,"User":%q},"Body":{"SubEvent":%d,"Info":{"User":%q,"Password":{"x":%q}}}}`, E, u, S, u, d),
+				fmt.Sprintf(`{"Head":{"Event":%d,"User":%q},"Body":{"SubEvent":%d,"Info":{"User":%q,"Password":null}}}`, E, u, S, u),
+				fmt.Sprintf(`{"Head":{"Event":%d,"User":%q},"Body":{"SubEvent":%d,"Info":{"User":%q,"Password":true}}}`, E, u, S, u),
+				fmt.Sprintf(`{"Head":{"Event":%d.5,"User":%q},"Body":{"SubEvent":%d,"Info":{"User":%q,"Password":%q}}}`, E, u, S, u, d),
+				fmt.Sprintf(`{"Head":{"Event":-%d,"User":%q},"Body":{"SubEvent":%d,"Info":{"User":%q,"Password":%q}}}`, E, u, S, u, d),
+				fmt.Sprintf(`{"Head":{"Event":%d,"User":null},"Body":{"SubEvent":%d,"Info":{"Password":%q}}}`, E, S, d),
+			})
+		case 24: // big and deep messages
+			d := pwHash(users[u])
+			return "big", pick([]string{
+				strings.Repeat(" ", 200000) + loginJSON(u, d, E, S, ""),
+				loginJSON(u, d, E, S, `,"Pad":"`+strings.Repeat("p", 300000)+`"`),
+				strings.Repeat("[", 20000),
+				strings.Repeat(`{"a":`, 12000) + "1" + strings.Repeat("}", 12000),
+				`{"Head":{"Event":` + strings.Repeat("9", 400) + `}}`,
+			})
+		case 25: // repeated members: the last one counts for encoding/json
+			d := pwHash(users[u])
+			return "dupkeys", pick([]string{
+				fmt.Sprintf(`{"Head":{"Event":0,"User":"x"},"Head":{"Event":%d,"User":%q},"Body":{"SubEvent":%d,"Info":{"User":%q,"Password":"no","Password":%q}}}`, E, u, S, u, d),
+				fmt.Sprintf(`{"Head":{"Event":%d,"User":%q},"Body":{"SubEvent":%d,"Info":{"User":%q,"Password":%q,"Password":"no"}}}`, E, u, S, u, d),
+			})
 		case 0, 1, 2, 3:
 			return "valid", loginJSON(u, pwHash(users[u]), E, S, "")
 		case 4:
@@ -188,7 +249,7 @@ func runC06(c *Ctx) {
 		}
 	}
 	followUps := []string{
-		fmt.Sprintf(`{"Head":{"Event":%d,"User":"alice"},"Body":{"SubEvent":%d,"Info":{"Name":"evil","Protocol":"Http","Hosts":"127.0.0.1","HostBind":"127.0.0.1","PortBind":"1","PortConn":"1","Secure":"false","HostRotation":"round-robin","Headers":"","Uris":"","UserAgent":"x"}}}`, packager.Type.Listener.Type, packager.Type.Listener.Add),
+		fmt.Sprintf(`{"Head":{"Event":%d,"User":"alice"},"Body":{"SubEvent":%d,"Info":{"Name":"evil","Protocol":"Http","Hosts":"127.0.0.1","HostBind":"127.0.0.1","PortBind":"1","PortConn":"1","Secure":"false","HostRotation":"round-robin","Headers":"","Uris":"","HostHeader":"","UserAgent":"x"}}}`, packager.Type.Listener.Type, packager.Type.Listener.Add),
 		fmt.Sprintf(`{"Head":{"Event":%d,"User":"alice"},"Body":{"SubEvent":%d,"Info":{"Text":"aGk=","User":"alice"}}}`, packager.Type.Chat.Type, packager.Type.Chat.NewMessage),
 		fmt.Sprintf(`{"Head":{"Event":%d,"User":"alice"},"Body":{"SubEvent":%d,"Info":{"AgentID":"00000001","Marked":"Dead"}}}`, packager.Type.Session.Type, packager.Type.Session.MarkAsDead),
 		"garbage",
@@ -215,6 +276,24 @@ func runC06(c *Ctx) {
 			return "regagent-first", svcRegAgent(fmt.Sprintf("T%d", r.Intn(3)))
 		}
 	}
+	for _, k := range []int{16, 20, 22, 24, 25} {
+		for idx := 0; ; idx++ {
+			forcedKind, forcedIdx, exhausted = k, idx, false
+			label, first := firstMessages()
+			if exhausted {
+				break
+			}
+			c.Count("battery." + label)
+			w.line(c, "reset")
+			w.line(c, world)
+			w.line(c, "conn w")
+			w.line(c, "send w "+hx([]byte(loginJSON("bob", pwHash("pw-bob"), E, S, ""))))
+			w.line(c, "conn a")
+			w.line(c, "send a "+hx([]byte(first)))
+			w.line(c, fmt.Sprintf("bcast m%d", idx))
+		}
+	}
+	forcedKind, forcedIdx = -1, -1
 	for c.Lines < c.N {
 		w.line(c, "reset")
 		w.line(c, world)
@@ -267,7 +346,16 @@ func runC06(c *Ctx) {
 		w.line(c, "send a "+hx([]byte(first)))
 		inject()
 		// "nouserfield" authenticates too: the handshake reads the operator from Head.User
-		for k := 0; k < r.Intn(3) && label != "valid" && label != "extrafields" && label != "nouserfield"; k++ {
+		// whether a message logs in is read off the message itself (the fields the handshake looks at), never off the label
+		loggedIn := func(text string) bool {
+			f := strings.Split(msgSummary([]byte(text)), ":")
+			if len(f) != 5 || f[0] != fmt.Sprint(E) || f[1] != fmt.Sprint(S) || f[3] != "str" {
+				return false
+			}
+			pw, ok := users[string(unhx(f[2]))]
+			return ok && string(unhx(f[4])) == pwHash(pw)
+		}
+		for k := 0; k < r.Intn(3) && !loggedIn(first); k++ {
 			// only connections that did NOT log in: what an operator may send is not C06's subject
 			c.Count("followup")
 			w.line(c, "send a "+hx([]byte(gen.Pick(r, followUps))))
